@@ -59,6 +59,9 @@ def render_block(block, path, indent) -> List[str]:
             if s["handler"]:
                 out.append(f"{pad}except Exception:")
                 out += render_block(s["handler"], me + [3], indent + 4)
+            if s.get("orelse"):
+                out.append(f"{pad}else:")
+                out += render_block(s["orelse"], me + [2], indent + 4)
             if s["final"]:
                 out.append(f"{pad}finally:")
                 out += render_block(s["final"], me + [4], indent + 4)
@@ -381,7 +384,9 @@ def reach_runs(t: str):
                 ("depth2-handlers", dict(leaves='{"return", "break", "continue", "assertU"}', tests='{"T"}', iters='{"one", "lazyempty"}',
                                          comps='{"try", "while", "for", "match"}', depth=2, inloop="FALSE", tails='{"mark", "return"}'), 25),
                 ("depth1-lazy", dict(leaves='{"return", "raise", "break", "continue"}', tests='{"T", "U"}', iters='{"lazyempty", "lazyone", "empty"}',
-                                     comps='{"for", "while", "match"}', depth=1, inloop="TRUE", tails='{"mark"}'), 7)]
+                                     comps='{"for", "while", "match"}', depth=1, inloop="TRUE", tails='{"mark"}'), 7),
+                ("depth1-tryelse", dict(leaves='{"return", "raise", "break", "assertU"}', tests='{"U"}', iters='{"one"}',
+                                        comps='{"try"}', depth=1, inloop="TRUE", tails='{"mark"}'), 3)]
     return [("depth1", dict(leaves='{"return", "raise", "break", "continue", "assertU", "assertF", "assertT"}', tests='{"T", "F", "U"}',
                             iters='{"empty", "one", "many", "U"}', comps='{"if", "while", "for", "with", "try"}', depth=1, inloop="TRUE",
                             tails='{"mark"}'), 3),
@@ -395,7 +400,9 @@ def reach_runs(t: str):
                                      inloop="FALSE", tails='{"mark", "return", "raise", "break"}'), 25),
             ("depth1-lazy", dict(leaves='{"return", "raise", "break", "continue", "assertU"}', tests='{"T", "F", "U"}',
                                  iters='{"lazyempty", "lazyone", "empty", "one"}', comps='{"for", "while", "match", "try", "if"}', depth=1,
-                                 inloop="TRUE", tails='{"mark"}'), 3)]
+                                 inloop="TRUE", tails='{"mark"}'), 3),
+            ("depth2-tryelse", dict(leaves='{"return", "raise", "break", "continue", "assertU"}', tests='{"T", "U"}', iters='{"one", "U"}',
+                                    comps='{"try", "if", "while"}', depth=2, inloop="FALSE", tails='{"mark", "return"}'), 25)]
 
 
 # ---------------------------------------------------------------------------------------------
